@@ -44,7 +44,8 @@ def leaf_label(n):
     if isinstance(n, LoopIR.Alloc):
         return ("alloc", str(n.name))
     if isinstance(n, LoopIR.Call):
-        return ("call", str(n.f.name), len(n.args))
+        # identified by its arguments, not by the callee: call_eqv / rename of the callee rewrite the statement in place
+        return ("call", tuple(str(a) for a in n.args))
     if isinstance(n, LoopIR.WindowStmt):
         return ("win", str(n.name))
     if isinstance(n, LoopIR.WriteConfig):
